@@ -3,10 +3,12 @@ package main
 import (
 	"errors"
 	"fmt"
+	"io/fs"
 	"reflect"
 	"simrt"
 	"sort"
 	"strings"
+	"syscall"
 	"time"
 	"unsafe"
 )
@@ -45,6 +47,7 @@ type CfgCore struct {
 	SM                             []map[string]int          // maps inside a slice
 	MM                             map[string][]string       // slices inside a map
 	MA                             map[string]map[string]int // maps inside a map; a source may place one inner map under several keys
+	KP                             map[KeyP]int              // keys that hold a pointer: the pointee is memory a holder can write to
 	Pairs                          [][2]*int                 // arrays (holding pointers) inside a slice
 	Arr                            [2]string                 // an array leaf
 	When                           time.Time                 // a struct that unmarshals from text
@@ -116,6 +119,11 @@ type TextU struct {
 }
 
 func (t *TextU) UnmarshalText(b []byte) error {
+	if name, ok := strings.CutPrefix(string(b), "load:"); ok {
+		// a leaf that names a file the application loads while decoding (a
+		// certificate, an include): this one does not exist
+		return fmt.Errorf("loading %s: %w", name, &fs.PathError{Op: "open", Path: name, Err: syscall.ENOENT})
+	}
 	t.S, t.M, t.L = string(b), map[string]int{string(b): len(b)}, []string{string(b)}
 	return nil
 }
@@ -332,6 +340,7 @@ type Part struct {
 	SM        []map[string]int    `json:"sm,omitempty"`
 	MM        map[string][]string `json:"mm,omitempty"`
 	MA        map[string]int      `json:"ma,omitempty"` // key -> inner map number; equal numbers are one and the same map object
+	KP        []string            `json:"kp,omitempty"` // names of the keys of the pointer-keyed map
 	Pairs     [][2]int            `json:"pairs,omitempty"`
 	Arr       []string            `json:"arr,omitempty"`  // two elements
 	When      *string             `json:"when,omitempty"` // RFC 3339
@@ -379,6 +388,24 @@ func cloneM(m map[string]int) map[string]int {
 	out := make(map[string]int, len(m))
 	for k, v := range m {
 		out[k] = v
+	}
+	return out
+}
+
+// KeyP is a comparable struct that holds a pointer: as a map key it is
+// compared by the pointer's identity, and what it points to is ordinary memory.
+type KeyP struct {
+	Name string
+	Z    *Zone
+}
+
+type Zone struct{ ID int }
+
+func buildKP(names []string) map[KeyP]int {
+	out := map[KeyP]int{}
+	for i, n := range names {
+		// (names are made unique: two keys never render alike)
+		out[KeyP{Name: fmt.Sprintf("%s#%d", n, i), Z: &Zone{ID: len(n) + i}}] = i + 1
 	}
 	return out
 }
@@ -491,6 +518,9 @@ func fillValue(e reflect.Value, p *Part, owner int) {
 	}
 	if p.MA != nil {
 		fld("MA").Set(reflect.ValueOf(buildMA(p.MA)))
+	}
+	if p.KP != nil {
+		fld("KP").Set(reflect.ValueOf(buildKP(p.KP)))
 	}
 	if p.Pairs != nil {
 		fld("Pairs").Set(reflect.ValueOf(buildPairs(p.Pairs)))
@@ -631,6 +661,9 @@ func defaultsFrom(p *Part) *CfgCore {
 	}
 	if p.MA != nil {
 		c.MA = buildMA(p.MA)
+	}
+	if p.KP != nil {
+		c.KP = buildKP(p.KP)
 	}
 	if p.Pairs != nil {
 		c.Pairs = buildPairs(p.Pairs)
@@ -777,7 +810,14 @@ func renderValue(b *strings.Builder, v reflect.Value, seen map[unsafe.Pointer]in
 		ks := make([]string, len(keys))
 		idx := map[string]reflect.Value{}
 		for i, k := range keys {
-			ks[i] = fmt.Sprint(k)
+			if k.Kind() == reflect.String {
+				ks[i] = k.String()
+			} else {
+				// by content (a key may hold pointers), with ordinals of its own
+				var kb strings.Builder
+				renderValue(&kb, k, map[unsafe.Pointer]int{})
+				ks[i] = kb.String()
+			}
 			idx[ks[i]] = k
 		}
 		sort.Strings(ks)
@@ -884,6 +924,7 @@ func mutableRegions(v reflect.Value, path string, out *[]region, seen map[uintpt
 		*out = append(*out, region{p, p + 1, path + "(map)"})
 		it := v.MapRange()
 		for it.Next() {
+			mutableRegions(it.Key(), path+"[key]", out, seen)
 			mutableRegions(it.Value(), path+"[k]", out, seen)
 		}
 	case reflect.Slice:
